@@ -20,11 +20,24 @@ exact-arithmetic (`ℝ`) reading (rounding is not modelled) — or, where stated
 * `incompleteBeta`: `ib_exc_iff` (exception iff outside the domain, unconditionally), `ib_ends`,
   `ib_direct_series`, `ib_reflect_swapped` / `pBeta_reflect_partial` (on the swapped side the value *is*
   the clamped complement of the mirrored call, for every choice of the sub-kernels), `ib_swapped_le`
-  (clamp), `ib_hangs_only_in_series`; the two continued fractions are bounded by the code's own
-  300 rounds (total functions in the model).
-* `qBeta`: `qBeta_raises_iff_partial`, `qBeta_ends`, `qBeta_reflect` (`qBeta(p;a,b) = 1 − qBeta(1−p;b,a)` for
-  `1/2 < p < 1`, exactly, by construction of the tail swap), `qBeta_terminates` (both Newton loops
-  are bounded by `niterations`: `qBeta` returns whenever `pBeta` does).
+  (clamp), `ib_hang_only_at_series_call` / `ib_hangs_only_in_series` (pointwise: it can fail to return
+  only inside a power-series call it actually makes); the two continued fractions are bounded by the
+  code's own 300 rounds (total functions in the model).
+* `qBeta`: `qBeta_guard_raises`, `qBeta_raises_only_through_pBeta`, `qBeta_zero_shape_raises`,
+  `qBeta_raises_iff_partial` (over the transcribed `pBeta`: inside `0 ≤ prob ≤ 1`, positive shapes, it
+  can raise only through a Newton iterate outside `[0,1]`; `qbInner_exit_in_unit`, `qbReset_in_unit`
+  confine that to the inner loop exhausting its cap — **not excluded**, checked on every run),
+  `qBeta_raises_iff_of_total_pBeta` (the iff, for a `pBeta` that never raises), `qBeta_ends`,
+  `qBeta_reflect` (`qBeta(p;a,b) = 1 − qBeta(1−p;b,a)` for `1/2 < p < 1`, exactly, by construction of the
+  tail swap), `qBeta_hang_only_through_pBeta` / `qBeta_terminates` / `qBeta_hangs_only_in_series` (both
+  Newton loops are bounded by `niterations`: `qBeta` returns whenever the `pBeta` calls it makes do).
+
+Audit note (round 1 of the audit): the decision-table theorems (`ig_guards`, `ig_far_tail_one`,
+`ig_inf_one`, `ig_never_raises`, `qChisq_guard`, `qcStartKind_table`, `qChisq_small_start_returns`,
+`qChisq_ig_error`, `qChisq_never_raises`, `ib_ends`, `ib_direct_series`, `qBeta_ends`,
+`qBeta_guard_raises`, `*_fuel_irrelevant`) restate the transcribed branch conditions; their value is
+that the same Boolean definitions are evaluated on the implementation's output.  The derived
+properties are the others.
 -/
 namespace Bpp.C08
 open Bpp Bpp.Scalar Bpp.PNorm Bpp.DistKernels
@@ -576,6 +589,40 @@ theorem qBeta_raises_only_through_pBeta (lg : ℝ → ℝ) (pb : ℝ → ℝ →
       obtain ⟨x, hx⟩ := qbLowerTail_bad_from_query pb .exc (by simp) _ _ _ _ h'
       exact ⟨x, Or.inr hx⟩
 
+/-- every trial point the inner loop *accepts* (exit by `break` or `goto L_converged`, cpp:540-545) lies in
+`[0,1]`, and strictly inside on `break`: a Newton iterate can leave `[0,1]` only when the inner loop
+runs into its cap -/
+theorem qbInner_exit_in_unit (xinbta y prev acu : ℝ) (n : Nat) (s0 st : Inn ℝ) (c : Bool)
+    (h : iterCap (qbInnerStep xinbta y prev acu) n s0 = .inr (st, c)) :
+    0 ≤ st.tx ∧ st.tx ≤ 1 ∧ (c = false → st.tx ≠ 0 ∧ st.tx ≠ 1) := by
+  refine iterCap_inr_inv (qbInnerStep xinbta y prev acu)
+    (fun r => 0 ≤ r.1.tx ∧ r.1.tx ≤ 1 ∧ (r.2 = false → r.1.tx ≠ 0 ∧ r.1.tx ≠ 1)) ?_ n s0 (st, c) h
+  intro s b hs
+  simp only [qbInnerStep, Bool.and_eq_true, ScalarReal.geb_iff, ScalarReal.leb_iff, ScalarReal.ltb_iff,
+    ScalarReal.zero_eq, ScalarReal.one_eq, Bool.or_eq_true, Bool.not_eq_eq_eq_not, Bool.not_true,
+    ScalarReal.eqb_iff] at hs
+  split_ifs at hs with h1 h2 h3 h4
+  · injection hs with hs; rw [← hs]; exact ⟨h2.1, h2.2, fun hc => by cases hc⟩
+  · injection hs with hs; rw [← hs]
+    refine ⟨h2.1, h2.2, fun _ => ⟨?_, ?_⟩⟩
+    · intro e
+      have e' : xinbta - s.g * y = 0 := e
+      have := h4.1; simp [e'] at this
+    · intro e
+      have e' : xinbta - s.g * y = 1 := e
+      have := h4.2; simp [e'] at this
+
+/-- the start value after the reset (cpp:514-515) lies strictly inside `(0,1)` for the working tail
+probability `0 < a ≤ 1/2` -/
+theorem qbReset_in_unit (a x : ℝ) (ha : 0 < a) (ha2 : a ≤ 1 / 2) : 0 < qbReset a x ∧ qbReset a x < 1 := by
+  have hl : (0 : ℝ) < qbLower := by simp [qbLower, fpu, dy2]
+  have hu : (qbUpper : ℝ) < 1 := by simp [qbUpper, c2_22em16]
+  simp only [qbReset, Bool.or_eq_true, ScalarReal.leb_iff, ScalarReal.geb_iff, half_real, two_real]
+  split_ifs with h
+  · constructor <;> linarith
+  · push Not at h
+    constructor <;> linarith [h.1, h.2]
+
 /-- **Guard completeness of `qBeta` over the transcribed `pBeta`, as far as it is proved** (`_partial`).
 The full statement for positive shapes is `qBeta(prob, α, β) raises ↔ prob < 0 ∨ prob > 1`.  Proved:
 `←` (`qBeta_guard_raises`) and, for `→`, that an exception inside `0 ≤ prob ≤ 1` with `α, β > 0` can
@@ -584,7 +631,8 @@ only come from a Newton iterate `x` *outside `[0,1]`* handed to `pBeta` (whose o
 `qbReset_in_unit` every accepted trial point and the start lie in `[0,1]`; the only leak is the inner
 loop running into its cap of 2000 step reductions with its last trial point outside, which exact
 arithmetic does not exclude.  The driver checks it on every `k.qbeta` / `qbeta` op (an exception
-inside the domain with positive shapes is a `FAIL:qBeta_raises_iff`). -/
+inside the domain with positive shapes is a `FAIL:qBeta_no_exception_inside_domain`, a concrete
+failing input of the property's last clause). -/
 theorem qBeta_raises_iff_partial (lg : ℝ → ℝ) (S : BetaSub ℝ) (prob p q : ℝ) (hp : 0 < p) (hq : 0 < q)
     (h0 : 0 ≤ prob) (h1 : prob ≤ 1) (h : qBeta lg (incompleteBeta S) prob p q = .exc) :
     ∃ x, (x < 0 ∨ 1 < x) ∧ (incompleteBeta S x p q = .exc ∨ incompleteBeta S x q p = .exc) := by
